@@ -27,6 +27,7 @@ EXPLANATION = (
     "evaluation); (FRESHCHUNK) every yielded chunk owns its storage; (RADIX) strides are "
     "products of the later recorded sizes, digits are floor-division with the remainder "
     "carried, projected indices consume no digit. "
+    'Round 7: (NOMUTATE) the adder and the gatherer never write in place into a value that may alias the per-slice results they are handed (assumption: an augmented assignment on a name unpacked from a tuple parameter counts as such a write). '
 )
 ASSUMPTIONS = ("dict preserves insertion order; dataclass(order=True) compares fields in "
                "declaration order",)
